@@ -19,8 +19,12 @@ def native_search(unit, seed, run=None, timeout=120):
         exe = os.path.join(wd, 'r')
         inc = os.path.join(REPO, 'CPP/Clipper2Lib/include')
         srcdir = os.path.join(REPO, 'CPP/Clipper2Lib/src')
+        link = []
+        mm = re.search(r'^// LINK:(.*)$', open(src).read(), flags=re.M)
+        if mm:
+            link = [os.path.join(srcdir, 'clipper.%s.cpp' % x) for x in mm.group(1).split()]
         cmd = ['g++', '-std=c++17', '-O1', '-fno-access-control', '-w', '-I', inc, '-I', srcdir,
-               '-I', os.path.join(VERIF, 'replay'), src, '-o', exe]
+               '-I', os.path.join(VERIF, 'replay'), src] + link + ['-o', exe]
         p = subprocess.run(cmd, capture_output=True, text=True, timeout=300)
         if p.returncode != 0:
             return dict(built=False, log=p.stderr[-2000:])
